@@ -42,180 +42,650 @@ theorem mapSumReduce_eq (divN : M → Nat → M) (n : Nat) (sched : List (List M
 
 end Sum
 
-/-! ### min_reduce -/
+/-! ### min_reduce_feature -/
 
 section Min
+set_option linter.unusedSectionVars false
 variable {α π : Type} [LinearOrder α]
 
-/-- the cache holds nothing, or something that scores strictly above `m` -/
-def above (m : α) : Option (Cand α π) → Prop
-  | none => True
-  | some b => m < b.score
+/-- the left-biased minimum by score of two caches: what a cache holding `a` becomes after the candidates that alone
+    would have produced the cache `b` -/
+def merge : Option (Cand α π) → Option (Cand α π) → Option (Cand α π)
+  | none, b => b
+  | some a, none => some a
+  | some a, some b => if b.score < a.score then some b else some a
 
-theorem upd_above (m : α) (c : Option (Cand α π)) (x : Cand α π) (hc : above m c) (hx : m < x.score) :
-    above m (upd c x) := by
-  cases c with
-  | none => exact hx
-  | some b =>
-    simp only [upd]
-    split
-    · exact hx
-    · exact hc
+theorem merge_none_right (a : Option (Cand α π)) : merge a none = a := by cases a <;> rfl
 
-theorem fold_above (m : α) (xs : List (Cand α π)) (c : Option (Cand α π)) (hc : above m c)
-    (hx : ∀ x ∈ xs, m < x.score) : above m (xs.foldl upd c) := by
-  induction xs generalizing c with
-  | nil => exact hc
-  | cons x xs ih =>
-    exact ih _ (upd_above m c x hc (hx x (by simp))) (fun y hy => hx y (by simp [hy]))
+theorem merge_none_left (a : Option (Cand α π)) : merge none a = a := rfl
 
-theorem fold_keep (b : Cand α π) (xs : List (Cand α π)) (hx : ∀ x ∈ xs, b.score ≤ x.score) :
-    xs.foldl upd (some b) = some b := by
-  induction xs with
-  | nil => rfl
-  | cons x xs ih =>
-    have h1 : ¬ x.score < b.score := not_lt.mpr (hx x (by simp))
-    simp only [List.foldl_cons, upd, h1, if_false]
-    exact ih (fun y hy => hx y (by simp [hy]))
+theorem upd_eq_merge (c : Option (Cand α π)) (x : Cand α π) : upd c x = merge c (some x) := by
+  cases c <;> rfl
 
-theorem upd_star (c : Option (Cand α π)) (x : Cand α π) (hc : above x.score c) : upd c x = some x := by
-  cases c with
+theorem merge_assoc (a b c : Option (Cand α π)) : merge (merge a b) c = merge a (merge b c) := by
+  cases a with
   | none => rfl
-  | some b =>
-    have h : x.score < b.score := hc
-    simp [upd, h]
+  | some a =>
+    cases b with
+    | none => rfl
+    | some b =>
+      cases c with
+      | none => simp only [merge_none_right]
+      | some c =>
+        by_cases h1 : b.score < a.score
+        · by_cases h2 : c.score < b.score
+          · have h3 : c.score < a.score := lt_trans h2 h1
+            simp [merge, h1, h2, h3]
+          · simp [merge, h1, h2]
+        · by_cases h2 : c.score < b.score
+          · by_cases h3 : c.score < a.score
+            · simp [merge, h1, h2, h3]
+            · simp [merge, h1, h2, h3]
+          · have h3 : ¬ c.score < a.score := fun h => h2 (lt_of_lt_of_le h (not_lt.mp h1))
+            simp [merge, h1, h2, h3]
 
-/-- a worker whose stream is `P ++ x :: Q` with everything before `x` scoring strictly above `x` and everything after it
-    not below ends with `x` in its cache -/
-theorem fold_star (x : Cand α π) (P Q : List (Cand α π)) (c : Option (Cand α π)) (hc : above x.score c)
-    (hP : ∀ y ∈ P, x.score < y.score) (hQ : ∀ y ∈ Q, x.score ≤ y.score) :
-    (P ++ x :: Q).foldl upd c = some x := by
-  rw [List.foldl_append, List.foldl_cons, upd_star _ x (fold_above x.score P c hc hP)]
-  exact fold_keep x Q hQ
+theorem foldl_upd_eq_merge (B : List (Cand α π)) (c : Option (Cand α π)) : B.foldl upd c = merge c (cacheOf B) := by
+  induction B generalizing c with
+  | nil => simp [cacheOf, merge_none_right]
+  | cons x B ih =>
+    have h1 : cacheOf (x :: B) = merge (some x) (cacheOf B) := by
+      simp only [cacheOf, List.foldl_cons]
+      exact ih (upd none x)
+    rw [List.foldl_cons, ih, h1, upd_eq_merge, merge_assoc]
 
-/-- the selection step of `std::min_element` -/
+theorem cacheOf_append (A B : List (Cand α π)) : cacheOf (A ++ B) = merge (cacheOf A) (cacheOf B) := by
+  unfold cacheOf
+  rw [List.foldl_append]
+  exact foldl_upd_eq_merge B _
+
+theorem cacheOf_cons (x : Cand α π) (B : List (Cand α π)) : cacheOf (x :: B) = merge (some x) (cacheOf B) :=
+  cacheOf_append [x] B
+
+/-- a cache holds one of the candidates it saw, with the smallest score -/
+theorem cacheOf_spec (L : List (Cand α π)) :
+    (cacheOf L = none ↔ L = []) ∧ ∀ a, cacheOf L = some a → a ∈ L ∧ ∀ y ∈ L, a.score ≤ y.score := by
+  induction L with
+  | nil => exact ⟨⟨fun _ => rfl, fun _ => rfl⟩, fun a h => by simp [cacheOf] at h⟩
+  | cons x L ih =>
+    rw [cacheOf_cons]
+    cases hc : cacheOf L with
+    | none =>
+      have hL : L = [] := ih.1.mp hc
+      subst hL
+      refine ⟨⟨fun h => by simp [merge] at h, fun h => by simp at h⟩, fun a h => ?_⟩
+      simp only [merge, Option.some.injEq] at h
+      subst h
+      simp
+    | some b =>
+      obtain ⟨hb, hmin⟩ := ih.2 b hc
+      refine ⟨⟨fun h => ?_, fun h => by simp at h⟩, fun a h => ?_⟩
+      · simp only [merge] at h
+        split at h <;> simp at h
+      · simp only [merge] at h
+        split at h
+        · rename_i hlt
+          simp only [Option.some.injEq] at h
+          subst h
+          refine ⟨List.mem_cons_of_mem _ hb, fun y hy => ?_⟩
+          rcases List.mem_cons.mp hy with rfl | hy
+          · exact le_of_lt hlt
+          · exact hmin y hy
+        · rename_i hlt
+          simp only [Option.some.injEq] at h
+          subst h
+          refine ⟨by simp, fun y hy => ?_⟩
+          rcases List.mem_cons.mp hy with rfl | hy
+          · exact le_refl _
+          · exact le_trans (not_lt.mp hlt) (hmin y hy)
+
+/-- what a worker's cache would hold had it seen the candidates of the feature `f` only -/
+def rep (f : Feat α π) : Option (Cand α π) := cacheOf (candsOf f)
+
+/-- the per-feature bests of the features a worker processed, in its order -/
+def reps (w : List (Feat α π)) : List (Cand α π) := w.filterMap rep
+
+theorem mem_candsOf (f : Feat α π) (c : Cand α π) (h : c ∈ candsOf f) : c.feature = f.1 := by
+  unfold candsOf at h
+  obtain ⟨sp, _, rfl⟩ := List.mem_map.mp h
+  rfl
+
+theorem rep_feature (f : Feat α π) (r : Cand α π) (h : rep f = some r) : r.feature = f.1 :=
+  mem_candsOf f r ((cacheOf_spec (candsOf f)).2 r h).1
+
+theorem stream_cons (f : Feat α π) (w : List (Feat α π)) : stream (f :: w) = candsOf f ++ stream w := by
+  simp [stream]
+
+/-- a worker's cache depends on the per-feature bests only -/
+theorem cacheOf_stream (w : List (Feat α π)) : cacheOf (stream w) = cacheOf (reps w) := by
+  induction w with
+  | nil => rfl
+  | cons f w ih =>
+    rw [stream_cons, cacheOf_append, ih]
+    unfold reps
+    rw [List.filterMap_cons]
+    cases hr : rep f with
+    | none =>
+      have : cacheOf (candsOf f) = none := hr
+      rw [this, merge_none_left]
+    | some r =>
+      have : cacheOf (candsOf f) = some r := hr
+      simp only [this]
+      rw [cacheOf_cons]
+
+/-- `(score, feature)` compared lexicographically, strictly -/
+def lexLt (a b : Cand α π) : Prop := a.score < b.score ∨ (a.score = b.score ∧ a.feature < b.feature)
+
+theorem lexLt_trans {a b c : Cand α π} (h1 : lexLt a b) (h2 : lexLt b c) : lexLt a c := by
+  rcases h1 with h1 | ⟨e1, f1⟩ <;> rcases h2 with h2 | ⟨e2, f2⟩
+  · exact Or.inl (lt_trans h1 h2)
+  · exact Or.inl (e2 ▸ h1)
+  · exact Or.inl (e1 ▸ h2)
+  · exact Or.inr ⟨e1.trans e2, by omega⟩
+
+theorem lexLt_asymm {a b : Cand α π} (h1 : lexLt a b) (h2 : lexLt b a) : False := by
+  rcases h1 with h1 | ⟨e1, f1⟩ <;> rcases h2 with h2 | ⟨e2, f2⟩
+  · exact lt_asymm h1 h2
+  · exact absurd h1 (by rw [e2]; exact lt_irrefl _)
+  · exact absurd h2 (by rw [e1]; exact lt_irrefl _)
+  · omega
+
+theorem lessC_some (a b : Cand α π) : lessC (some a) (some b) = true ↔ lexLt a b := by
+  simp only [lessC, lexLt, Bool.or_eq_true, Bool.and_eq_true, decide_eq_true_eq, Bool.not_eq_true', decide_eq_false_iff_not]
+  constructor
+  · rintro (h | ⟨h1, h2⟩)
+    · exact Or.inl h
+    · rcases lt_or_eq_of_le (not_lt.mp h1) with h | h
+      · exact Or.inl h
+      · exact Or.inr ⟨h, h2⟩
+  · rintro (h | ⟨h1, h2⟩)
+    · exact Or.inl h
+    · exact Or.inr ⟨by rw [h1]; exact lt_irrefl _, h2⟩
+
+/-- `r` is THE best of the candidates `all`: nothing when there is none, otherwise the member that is lexicographically
+    below every other member -/
+def Best (all : List (Cand α π)) : Option (Cand α π) → Prop
+  | none => all = []
+  | some a => a ∈ all ∧ ∀ b ∈ all, b = a ∨ lexLt a b
+
+theorem best_unique (all : List (Cand α π)) (r r' : Option (Cand α π)) (h : Best all r) (h' : Best all r') : r = r' := by
+  cases r with
+  | none =>
+    cases r' with
+    | none => rfl
+    | some a' =>
+      have h0 : all = [] := h
+      have : a' ∈ all := h'.1
+      rw [h0] at this
+      simp at this
+  | some a =>
+    cases r' with
+    | none =>
+      have h0 : all = [] := h'
+      have : a ∈ all := h.1
+      rw [h0] at this
+      simp at this
+    | some a' =>
+      rcases h.2 a' h'.1 with e | l1
+      · rw [e]
+      · rcases h'.2 a h.1 with e | l2
+        · rw [e]
+        · exact absurd l2 (fun l2 => lexLt_asymm l1 l2)
+
+theorem best_congr (A B : List (Cand α π)) (hAB : ∀ x, x ∈ A ↔ x ∈ B) (r : Option (Cand α π)) (h : Best A r) :
+    Best B r := by
+  cases r with
+  | none =>
+    have h0 : A = [] := h
+    show B = []
+    apply List.eq_nil_iff_forall_not_mem.mpr
+    intro x hx
+    have := (hAB x).mpr hx
+    rw [h0] at this
+    simp at this
+  | some a => exact ⟨(hAB a).mp h.1, fun b hb => h.2 b ((hAB b).mpr hb)⟩
+
+/-- one cache over per-feature bests with increasing feature indices holds THE best of them -/
+theorem cacheOf_best (R : List (Cand α π)) (h : R.Pairwise (fun a b => a.feature < b.feature)) : Best R (cacheOf R) := by
+  induction R with
+  | nil => rfl
+  | cons x R ih =>
+    rw [cacheOf_cons]
+    obtain ⟨hx, hR⟩ := List.pairwise_cons.mp h
+    have ihR := ih hR
+    cases hc : cacheOf R with
+    | none =>
+      rw [hc] at ihR
+      have h0 : R = [] := ihR
+      subst h0
+      exact ⟨by simp, fun b hb => Or.inl (by simpa using hb)⟩
+    | some a =>
+      rw [hc] at ihR
+      obtain ⟨ha, hmin⟩ := ihR
+      simp only [merge]
+      split
+      · rename_i hlt
+        refine ⟨List.mem_cons_of_mem _ ha, fun b hb => ?_⟩
+        rcases List.mem_cons.mp hb with rfl | hb
+        · exact Or.inr (Or.inl hlt)
+        · exact hmin b hb
+      · rename_i hlt
+        refine ⟨by simp, fun b hb => ?_⟩
+        rcases List.mem_cons.mp hb with rfl | hb
+        · exact Or.inl rfl
+        · right
+          have hle : x.score ≤ b.score := by
+            rcases hmin b hb with e | l
+            · rw [e]; exact not_lt.mp hlt
+            · rcases l with l | ⟨e, _⟩
+              · exact le_trans (not_lt.mp hlt) (le_of_lt l)
+              · rw [← e]; exact not_lt.mp hlt
+          rcases lt_or_eq_of_le hle with l | e
+          · exact Or.inl l
+          · exact Or.inr ⟨e, hx b hb⟩
+
+/-- the selection step of `std::min_element` with the comparison of `min_reduce_feature` -/
 def sel (best y : Option (Cand α π)) : Option (Cand α π) := if lessC y best then y else best
 
 theorem minReduce_cons (c : Option (Cand α π)) (cs : List (Option (Cand α π))) :
     minReduce (c :: cs) = some (cs.foldl sel c) := rfl
 
-theorem sel_above (m : α) (best y : Option (Cand α π)) (hb : above m best) (hy : above m y) : above m (sel best y) := by
-  unfold sel; split
-  · exact hy
-  · exact hb
+/-- two candidates with the same feature index are the same candidate (different workers hold different features) -/
+def Distinct (all : List (Cand α π)) : Prop := ∀ a ∈ all, ∀ b ∈ all, a.feature = b.feature → a = b
 
-theorem foldl_sel_above (m : α) (cs : List (Option (Cand α π))) (c : Option (Cand α π)) (hc : above m c)
-    (hcs : ∀ y ∈ cs, above m y) : above m (cs.foldl sel c) := by
-  induction cs generalizing c with
-  | nil => exact hc
-  | cons y ys ih =>
-    exact ih _ (sel_above m c y hc (hcs y (by simp))) (fun z hz => hcs z (by simp [hz]))
-
-theorem sel_star (best : Option (Cand α π)) (x : Cand α π) (hb : above x.score best) : sel best (some x) = some x := by
+theorem sel_best (P R : List (Cand α π)) (best y : Option (Cand α π)) (hP : Best P best) (hR : Best R y)
+    (hd : Distinct (P ++ R)) : Best (P ++ R) (sel best y) := by
   cases best with
-  | none => simp [sel, lessC]
-  | some b =>
-    have h : x.score < b.score := hb
-    simp [sel, lessC, h]
+  | none =>
+    have h0 : P = [] := hP
+    subst h0
+    cases y with
+    | none => simpa [sel, lessC] using hR
+    | some b => simpa [sel, lessC] using hR
+  | some a =>
+    cases y with
+    | none =>
+      have h0 : R = [] := hR
+      subst h0
+      simpa [sel, lessC] using hP
+    | some b =>
+      obtain ⟨haP, hminP⟩ := hP
+      obtain ⟨hbR, hminR⟩ := hR
+      unfold sel
+      by_cases hl : lessC (some b) (some a) = true
+      · rw [if_pos hl]
+        have hba : lexLt b a := (lessC_some b a).mp hl
+        refine ⟨List.mem_append_right _ hbR, fun c hc => ?_⟩
+        rcases List.mem_append.mp hc with hc | hc
+        · rcases hminP c hc with e | l
+          · right; rw [e]; exact hba
+          · right; exact lexLt_trans hba l
+        · exact hminR c hc
+      · rw [if_neg hl]
+        have hnba : ¬ lexLt b a := fun h => hl ((lessC_some b a).mpr h)
+        -- totality: distinct feature indices, or the same candidate
+        have hab : b = a ∨ lexLt a b := by
+          by_cases hf : a.feature = b.feature
+          · left
+            exact (hd a (List.mem_append_left _ haP) b (List.mem_append_right _ hbR) hf).symm
+          · right
+            rcases lt_trichotomy a.score b.score with h | h | h
+            · exact Or.inl h
+            · rcases Int.lt_or_gt_of_ne hf with h' | h'
+              · exact Or.inr ⟨h, h'⟩
+              · exact absurd (Or.inr ⟨h.symm, h'⟩) hnba
+            · exact absurd (Or.inl h) hnba
+        refine ⟨List.mem_append_left _ haP, fun c hc => ?_⟩
+        rcases List.mem_append.mp hc with hc | hc
+        · exact hminP c hc
+        · rcases hminR c hc with e | l
+          · rw [e]; exact hab
+          · right
+            rcases hab with e | l'
+            · rw [← e]; exact l
+            · exact lexLt_trans l' l
 
-theorem foldl_sel_keep (x : Cand α π) (cs : List (Option (Cand α π))) (hcs : ∀ y ∈ cs, above x.score y) :
-    cs.foldl sel (some x) = some x := by
-  induction cs with
-  | nil => rfl
-  | cons y ys ih =>
-    have hy := hcs y (by simp)
-    have : sel (some x) y = some x := by
-      cases y with
-      | none => simp [sel, lessC]
-      | some b =>
-        have h1 : ¬ b.score < x.score := not_lt.mpr (le_of_lt hy)
-        simp [sel, lessC, h1]
-    rw [List.foldl_cons, this]
-    exact ih (fun z hz => hcs z (by simp [hz]))
+theorem foldl_sel_best (cache : List (Cand α π) → Option (Cand α π)) (ws : List (List (Cand α π)))
+    (P : List (Cand α π)) (best : Option (Cand α π)) (hP : Best P best) (hb : ∀ w ∈ ws, Best w (cache w))
+    (hd : Distinct (P ++ ws.flatten)) : Best (P ++ ws.flatten) ((ws.map cache).foldl sel best) := by
+  induction ws generalizing P best with
+  | nil => simpa using hP
+  | cons w ws ih =>
+    have hflat : P ++ (w :: ws).flatten = (P ++ w) ++ ws.flatten := by simp
+    rw [hflat] at hd ⊢
+    rw [List.map_cons, List.foldl_cons]
+    apply ih (P ++ w) _ _ (fun v hv => hb v (List.mem_cons_of_mem _ hv)) hd
+    apply sel_best P w best (cache w) hP (hb w (by simp))
+    intro a ha b hb'
+    exact hd a (List.mem_append_left _ ha) b (List.mem_append_left _ hb')
 
-/-- `min_reduce` returns the one cache that scores strictly below all the others, wherever it sits -/
-theorem minReduce_star (x : Cand α π) (A B : List (Option (Cand α π))) (hA : ∀ y ∈ A, above x.score y)
-    (hB : ∀ y ∈ B, above x.score y) : minReduce (A ++ some x :: B) = some (some x) := by
-  cases A with
-  | nil => rw [List.nil_append, minReduce_cons, foldl_sel_keep x B hB]
-  | cons a A' =>
-    rw [List.cons_append, minReduce_cons, List.foldl_append, List.foldl_cons]
-    have h1 : above x.score (A'.foldl sel a) :=
-      foldl_sel_above x.score A' a (hA a (by simp)) (fun z hz => hA z (by simp [hz]))
-    rw [sel_star _ x h1, foldl_sel_keep x B hB]
+/-- `min_reduce_feature` over caches that each hold THE best of what they saw returns THE best of everything -/
+theorem minReduce_best (cache : List (Cand α π) → Option (Cand α π)) (ws : List (List (Cand α π))) (hne : ws ≠ [])
+    (hb : ∀ w ∈ ws, Best w (cache w)) (hd : Distinct ws.flatten) :
+    ∃ r, minReduce (ws.map cache) = some r ∧ Best ws.flatten r := by
+  cases ws with
+  | nil => exact absurd rfl hne
+  | cons w ws =>
+    refine ⟨_, minReduce_cons _ _, ?_⟩
+    rw [List.flatten_cons]
+    rw [List.flatten_cons] at hd
+    exact foldl_sel_best cache ws w (cache w) (hb w (by simp)) (fun v hv => hb v (List.mem_cons_of_mem _ hv)) hd
 
-/-- candidate level: one worker's stream contains `x` as described by `fold_star`, every other worker only saw candidates
-    scoring strictly above `x` -/
-theorem mapMinReduce_star (x : Cand α π) (S1 S2 : List (List (Cand α π))) (P Q : List (Cand α π))
-    (hP : ∀ y ∈ P, x.score < y.score) (hQ : ∀ y ∈ Q, x.score ≤ y.score)
-    (h1 : ∀ s ∈ S1, ∀ y ∈ s, x.score < y.score) (h2 : ∀ s ∈ S2, ∀ y ∈ s, x.score < y.score) :
-    mapMinReduce (S1 ++ (P ++ x :: Q) :: S2) = some (some x) := by
+theorem reps_sorted (w : List (Feat α π)) (h : WorkerSorted w) :
+    (reps w).Pairwise (fun a b => a.feature < b.feature) := by
+  unfold WorkerSorted at h
+  rw [List.pairwise_map] at h
+  unfold reps
+  refine List.Pairwise.filterMap rep ?_ h
+  intro f g hfg a ha b hb
+  rw [rep_feature f a ha, rep_feature g b hb]
+  exact hfg
+
+theorem mem_reps (w : List (Feat α π)) (a : Cand α π) : a ∈ reps w ↔ ∃ f ∈ w, rep f = some a := by
+  simp [reps, List.mem_filterMap]
+
+theorem feat_inj (feats : List (Feat α π)) (hf : (feats.map Prod.fst).Pairwise (· < ·)) (f g : Feat α π)
+    (hff : f ∈ feats) (hgf : g ∈ feats) (h : f.1 = g.1) : f = g := by
+  induction feats with
+  | nil => simp at hff
+  | cons x xs ih =>
+    rw [List.map_cons, List.pairwise_cons] at hf
+    obtain ⟨hx, hxs⟩ := hf
+    rcases List.mem_cons.mp hff with e1 | hff' <;> rcases List.mem_cons.mp hgf with e2 | hgf'
+    · rw [e1, e2]
+    · have := hx g.1 (List.mem_map.mpr ⟨g, hgf', rfl⟩)
+      rw [e1] at h
+      omega
+    · have := hx f.1 (List.mem_map.mpr ⟨f, hff', rfl⟩)
+      rw [e2] at h
+      omega
+    · exact ih hxs hff' hgf'
+
+/-- **The fit selects the same candidate for every schedule with index-sorted workers.** `feats`: the features in
+    increasing index order; `sched`: per worker the features it processed, in its order. The result is THE best
+    (`Best`) of the per-feature bests. -/
+theorem mapMinReduce_sorted (feats : List (Feat α π)) (hf : (feats.map Prod.fst).Pairwise (· < ·))
+    (sched : List (List (Feat α π))) (hne : sched ≠ []) (hperm : sched.flatten.Perm feats) (hs : SchedSorted sched) :
+    ∃ r, mapMinReduce (sched.map stream) = some r ∧ Best (reps feats) r := by
+  have hmap : (sched.map stream).map cacheOf = (sched.map reps).map cacheOf := by
+    simp only [List.map_map]
+    apply List.map_congr_left
+    intro w _
+    exact cacheOf_stream w
+  have hmem : ∀ a, a ∈ (sched.map reps).flatten ↔ a ∈ reps feats := by
+    intro a
+    rw [mem_reps]
+    constructor
+    · intro h
+      obtain ⟨l, hl, ha⟩ := List.mem_flatten.mp h
+      obtain ⟨w, hw, rfl⟩ := List.mem_map.mp hl
+      obtain ⟨f, hfw, hfa⟩ := (mem_reps w a).mp ha
+      exact ⟨f, hperm.subset (List.mem_flatten.mpr ⟨w, hw, hfw⟩), hfa⟩
+    · rintro ⟨f, hff, hfa⟩
+      obtain ⟨w, hw, hfw⟩ := List.mem_flatten.mp (hperm.symm.subset hff)
+      exact List.mem_flatten.mpr ⟨reps w, List.mem_map.mpr ⟨w, hw, rfl⟩, (mem_reps w a).mpr ⟨f, hfw, hfa⟩⟩
+  have hd : Distinct (sched.map reps).flatten := by
+    intro a ha b hb hab
+    obtain ⟨f, hff, hfa⟩ := (mem_reps feats a).mp ((hmem a).mp ha)
+    obtain ⟨g, hgf, hgb⟩ := (mem_reps feats b).mp ((hmem b).mp hb)
+    have hfg : f.1 = g.1 := by rw [← rep_feature f a hfa, ← rep_feature g b hgb, hab]
+    have : f = g := feat_inj feats hf f g hff hgf hfg
+    subst this
+    rw [hfa] at hgb
+    exact Option.some.inj hgb
+  obtain ⟨r, hr, hbest⟩ := minReduce_best cacheOf (sched.map reps) (by simpa using hne)
+    (fun w hw => by
+      obtain ⟨v, hv, rfl⟩ := List.mem_map.mp hw
+      exact cacheOf_best _ (reps_sorted v (hs v hv))) hd
+  refine ⟨r, ?_, best_congr _ _ hmem r hbest⟩
   unfold mapMinReduce
-  rw [List.map_append, List.map_cons]
-  have hs : cacheOf (P ++ x :: Q) = some x := fold_star x P Q none trivial hP hQ
-  rw [hs]
-  apply minReduce_star
-  · intro y hy
-    obtain ⟨s, hs, rfl⟩ := List.mem_map.mp hy
-    exact fold_above x.score s none trivial (h1 s hs)
-  · intro y hy
-    obtain ⟨s, hs, rfl⟩ := List.mem_map.mp hy
-    exact fold_above x.score s none trivial (h2 s hs)
+  rw [hmap, hr]
 
-/-- feature level: the features are distributed over the workers in any way (`sched`: per worker the candidate lists of the
-    features it processed, in its order); one feature `P ++ x :: Q` holds the unique minimal score, first attained by `x` -/
-theorem mapMinReduce_feature (x : Cand α π) (P Q : List (Cand α π)) (F1 F2 : List (List (Cand α π)))
-    (hP : ∀ y ∈ P, x.score < y.score) (hQ : ∀ y ∈ Q, x.score ≤ y.score)
-    (hothers : ∀ f ∈ F1 ++ F2, ∀ y ∈ f, x.score < y.score)
-    (sched : List (List (List (Cand α π))))
-    (hperm : sched.flatten.Perm (F1 ++ (P ++ x :: Q) :: F2)) :
-    mapMinReduce (sched.map List.flatten) = some (some x) := by
-  have hmem : (P ++ x :: Q) ∈ sched.flatten := hperm.mem_iff.mpr (by simp)
-  obtain ⟨wk, hwk, hin⟩ := List.mem_flatten.mp hmem
-  obtain ⟨S1, S2, rfl⟩ := List.append_of_mem hwk
-  obtain ⟨G1, G2, rfl⟩ := List.append_of_mem hin
-  -- the features other than the best one, wherever they were processed, are the features of `F1 ++ F2`
-  have hflat : (S1 ++ (G1 ++ (P ++ x :: Q) :: G2) :: S2).flatten
-      = (S1.flatten ++ G1) ++ (P ++ x :: Q) :: (G2 ++ S2.flatten) := by
-    simp [List.flatten_append, List.flatten_cons, List.append_assoc]
-  have hrest : ((S1.flatten ++ G1) ++ (G2 ++ S2.flatten)).Perm (F1 ++ F2) := by
-    have h1 : ((P ++ x :: Q) :: ((S1.flatten ++ G1) ++ (G2 ++ S2.flatten))).Perm
-        ((P ++ x :: Q) :: (F1 ++ F2)) := by
-      refine (List.perm_middle.symm.trans ?_).trans List.perm_middle
-      rw [← hflat]
-      exact hperm
-    exact h1.cons_inv
-  have hgt : ∀ f ∈ (S1.flatten ++ G1) ++ (G2 ++ S2.flatten), ∀ y ∈ f, x.score < y.score :=
-    fun f hf => hothers f (hrest.mem_iff.mp hf)
-  have hmap : (S1 ++ (G1 ++ (P ++ x :: Q) :: G2) :: S2).map List.flatten
-      = S1.map List.flatten ++ ((G1.flatten ++ P) ++ x :: (Q ++ G2.flatten)) :: S2.map List.flatten := by
-    simp [List.flatten_append, List.flatten_cons, List.append_assoc]
-  rw [hmap]
-  apply mapMinReduce_star
-  · intro y hy
-    rcases List.mem_append.mp hy with hy | hy
-    · obtain ⟨f, hf, hyf⟩ := List.mem_flatten.mp hy
-      exact hgt f (by simp [hf]) y hyf
-    · exact hP y hy
-  · intro y hy
-    rcases List.mem_append.mp hy with hy | hy
-    · exact hQ y hy
-    · obtain ⟨f, hf, hyf⟩ := List.mem_flatten.mp hy
-      exact le_of_lt (hgt f (by simp [hf]) y hyf)
-  · intro s hs y hy
-    obtain ⟨w, hw, rfl⟩ := List.mem_map.mp hs
-    obtain ⟨f, hf, hyf⟩ := List.mem_flatten.mp hy
-    exact hgt f (by
-      have : f ∈ S1.flatten := List.mem_flatten.mpr ⟨w, hw, hf⟩
-      simp [this]) y hyf
-  · intro s hs y hy
-    obtain ⟨w, hw, rfl⟩ := List.mem_map.mp hs
-    obtain ⟨f, hf, hyf⟩ := List.mem_flatten.mp hy
-    exact hgt f (by
-      have : f ∈ S2.flatten := List.mem_flatten.mpr ⟨w, hw, hf⟩
-      simp [this]) y hyf
+/-- one worker that processes all features in index order -/
+theorem mapMinReduce_seq (feats : List (Feat α π)) (hf : (feats.map Prod.fst).Pairwise (· < ·)) :
+    mapMinReduce [stream feats] = some (cacheOf (stream feats)) ∧ Best (reps feats) (cacheOf (stream feats)) := by
+  refine ⟨rfl, ?_⟩
+  rw [cacheOf_stream]
+  exact cacheOf_best _ (reps_sorted feats hf)
+
+/-- `Best` over the per-feature bests, spelled out over ALL candidates: minimal score, and the smallest feature index among
+    the candidates with that score -/
+theorem best_reps_lexmin (feats : List (Feat α π)) (a : Cand α π) (h : Best (reps feats) (some a)) :
+    a ∈ stream feats ∧ ∀ y ∈ stream feats, a.score ≤ y.score ∧ (y.score = a.score → a.feature ≤ y.feature) := by
+  obtain ⟨ha, hmin⟩ := h
+  obtain ⟨f, hff, hfa⟩ := (mem_reps feats a).mp ha
+  have hin : ∀ g ∈ feats, ∀ y ∈ candsOf g, y ∈ stream feats := by
+    intro g hg y hy
+    unfold stream
+    exact List.mem_flatMap.mpr ⟨g, hg, hy⟩
+  refine ⟨hin f hff a ((cacheOf_spec (candsOf f)).2 a hfa).1, fun y hy => ?_⟩
+  unfold stream at hy
+  obtain ⟨g, hg, hyg⟩ := List.mem_flatMap.mp hy
+  -- the best of `y`'s feature
+  cases hb : rep g with
+  | none =>
+    have : candsOf g = [] := (cacheOf_spec (candsOf g)).1.mp hb
+    rw [this] at hyg
+    simp at hyg
+  | some b =>
+    have hby : b.score ≤ y.score := ((cacheOf_spec (candsOf g)).2 b hb).2 y hyg
+    have hbf : b.feature = y.feature := by rw [rep_feature g b hb, mem_candsOf g y hyg]
+    rcases hmin b ((mem_reps feats b).mpr ⟨g, hg, hb⟩) with e | l
+    · subst e
+      exact ⟨hby, fun _ => by omega⟩
+    · rcases l with l | ⟨e, l⟩
+      · exact ⟨le_trans (le_of_lt l) hby, fun hya => absurd (lt_of_lt_of_le l hby) (by rw [hya]; exact lt_irrefl _)⟩
+      · exact ⟨e ▸ hby, fun _ => by omega⟩
+
+/-! #### table learners: lexicographic caches (commit 5de0896) — no hypothesis on the order inside a worker -/
+
+theorem lessC_irrefl (a : Option (Cand α π)) : lessC a a = false := by
+  cases a with
+  | none => rfl
+  | some a =>
+    cases h : lessC (some a) (some a) with
+    | false => rfl
+    | true => exact absurd ((lessC_some a a).mp h) (fun h => lexLt_asymm h h)
+
+theorem lessC_trans {a b c : Option (Cand α π)} (h1 : lessC a b = true) (h2 : lessC b c = true) : lessC a c = true := by
+  cases a with
+  | none => simp [lessC] at h1
+  | some a =>
+    cases b with
+    | none => simp [lessC] at h2
+    | some b =>
+      cases c with
+      | none => rfl
+      | some c => exact (lessC_some a c).mpr (lexLt_trans ((lessC_some a b).mp h1) ((lessC_some b c).mp h2))
+
+/-- `¬ b < a` is `a ≤ b` in the lexicographic preorder: transitive -/
+theorem not_lexLt_trans {a b c : Cand α π} (h1 : ¬ lexLt b a) (h2 : ¬ lexLt c b) : ¬ lexLt c a := by
+  intro h
+  rcases lt_trichotomy a.score b.score with hab | hab | hab
+  · rcases lt_trichotomy b.score c.score with hbc | hbc | hbc
+    · rcases h with h | ⟨e, _⟩
+      · exact lt_asymm (lt_trans hab hbc) h
+      · rw [e] at hbc; exact lt_asymm hab hbc
+    · rcases h with h | ⟨e, _⟩
+      · rw [← hbc] at h; exact lt_asymm hab h
+      · rw [hbc, e] at hab; exact lt_irrefl _ hab
+    · exact h2 (Or.inl hbc)
+  · rcases lt_trichotomy b.score c.score with hbc | hbc | hbc
+    · rcases h with h | ⟨e, _⟩
+      · rw [hab] at h; exact lt_asymm hbc h
+      · rw [e, hab] at hbc; exact lt_irrefl _ hbc
+    · rcases h with h | ⟨_, hf⟩
+      · rw [hab, hbc] at h; exact lt_irrefl _ h
+      · have h1' : ¬ b.feature < a.feature := fun hf' => h1 (Or.inr ⟨hab.symm, hf'⟩)
+        have h2' : ¬ c.feature < b.feature := fun hf' => h2 (Or.inr ⟨hbc.symm, hf'⟩)
+        omega
+    · exact h2 (Or.inl hbc)
+  · exact h1 (Or.inl hab)
+
+theorem not_lessC_trans {a b c : Option (Cand α π)} (h1 : lessC b a = false) (h2 : lessC c b = false) :
+    lessC c a = false := by
+  cases c with
+  | none => rfl
+  | some c =>
+    cases b with
+    | none => simp [lessC] at h2
+    | some b =>
+      cases a with
+      | none => simp [lessC] at h1
+      | some a =>
+        cases h : lessC (some c) (some a) with
+        | false => rfl
+        | true =>
+          have h1' : ¬ lexLt b a := fun hh => by rw [(lessC_some b a).mpr hh] at h1; exact Bool.noConfusion h1
+          have h2' : ¬ lexLt c b := fun hh => by rw [(lessC_some c b).mpr hh] at h2; exact Bool.noConfusion h2
+          exact absurd ((lessC_some c a).mp h) (not_lexLt_trans h1' h2')
+
+/-- the left-biased lexicographic minimum is associative -/
+theorem sel_assoc (a b c : Option (Cand α π)) : sel (sel a b) c = sel a (sel b c) := by
+  unfold sel
+  cases h1 : lessC b a <;> cases h2 : lessC c b
+  · -- a ≤ b ≤ c
+    have h3 : lessC c a = false := not_lessC_trans h1 h2
+    simp [h1, h3]
+  · cases h3 : lessC c a <;> simp [h1, h3]
+  · simp [h1, h2]
+  · have h3 : lessC c a = true := lessC_trans h2 h1
+    simp [h1, h2, h3]
+
+theorem sel_none_right (a : Option (Cand α π)) : sel a none = a := by
+  unfold sel
+  cases a <;> rfl
+
+theorem sel_none_left (a : Option (Cand α π)) : sel none a = a := by
+  unfold sel
+  cases a <;> rfl
+
+theorem updLex_eq_sel (c : Option (Cand α π)) (x : Cand α π) : updLex c x = sel c (some x) := rfl
+
+theorem foldl_updLex_eq_sel (B : List (Cand α π)) (c : Option (Cand α π)) :
+    B.foldl updLex c = sel c (cacheOfLex B) := by
+  induction B generalizing c with
+  | nil => simp [cacheOfLex, sel_none_right]
+  | cons x B ih =>
+    have h1 : cacheOfLex (x :: B) = sel (some x) (cacheOfLex B) := by
+      simp only [cacheOfLex, List.foldl_cons]
+      exact ih (updLex none x)
+    rw [List.foldl_cons, ih, h1, updLex_eq_sel, sel_assoc]
+
+theorem cacheOfLex_append (A B : List (Cand α π)) : cacheOfLex (A ++ B) = sel (cacheOfLex A) (cacheOfLex B) := by
+  unfold cacheOfLex
+  rw [List.foldl_append]
+  exact foldl_updLex_eq_sel B _
+
+theorem cacheOfLex_cons (x : Cand α π) (B : List (Cand α π)) : cacheOfLex (x :: B) = sel (some x) (cacheOfLex B) :=
+  cacheOfLex_append [x] B
+
+/-- on the candidates of ONE feature the two cache updates coincide (first candidate with the smallest score) -/
+theorem foldl_updLex_same_feature (i : Int) (L : List (Cand α π)) (hL : ∀ x ∈ L, x.feature = i)
+    (c : Option (Cand α π)) (hc : ∀ b, c = some b → b.feature = i) : L.foldl updLex c = L.foldl upd c := by
+  induction L generalizing c with
+  | nil => rfl
+  | cons x L ih =>
+    have hx : x.feature = i := hL x (by simp)
+    have hstep : updLex c x = upd c x := by
+      cases c with
+      | none => rfl
+      | some b =>
+        have hb : b.feature = i := hc b rfl
+        have hf : ¬ x.feature < b.feature := by omega
+        by_cases hs : x.score < b.score
+        · simp [updLex, upd, lessC, hs]
+        · simp [updLex, upd, lessC, hs, hf]
+    rw [List.foldl_cons, List.foldl_cons, hstep]
+    apply ih (fun y hy => hL y (by simp [hy]))
+    intro b hb
+    cases c with
+    | none =>
+      simp only [upd, Option.some.injEq] at hb
+      rw [← hb]; exact hx
+    | some b0 =>
+      simp only [upd] at hb
+      split at hb
+      · simp only [Option.some.injEq] at hb; rw [← hb]; exact hx
+      · simp only [Option.some.injEq] at hb; rw [← hb]; exact hc b0 rfl
+
+theorem cacheOfLex_candsOf (f : Feat α π) : cacheOfLex (candsOf f) = rep f :=
+  foldl_updLex_same_feature f.1 (candsOf f) (fun x hx => mem_candsOf f x hx) none (fun b hb => by simp at hb)
+
+/-- a table worker's cache depends on the per-feature bests only -/
+theorem cacheOfLex_stream (w : List (Feat α π)) : cacheOfLex (stream w) = cacheOfLex (reps w) := by
+  induction w with
+  | nil => rfl
+  | cons f w ih =>
+    rw [stream_cons, cacheOfLex_append, ih, cacheOfLex_candsOf]
+    unfold reps
+    rw [List.filterMap_cons]
+    cases hr : rep f with
+    | none => simp only [sel_none_left]
+    | some r => simp only [cacheOfLex_cons]
+
+/-- one lexicographic cache over per-feature bests with distinct feature indices, in ANY order, holds THE best of them -/
+theorem cacheOfLex_best (R : List (Cand α π)) (hd : Distinct R) : Best R (cacheOfLex R) := by
+  induction R with
+  | nil => rfl
+  | cons x R ih =>
+    rw [cacheOfLex_cons]
+    have hR : Distinct R := fun a ha b hb => hd a (List.mem_cons_of_mem _ ha) b (List.mem_cons_of_mem _ hb)
+    have h1 : Best [x] (some x) := ⟨by simp, fun b hb => Or.inl (by simpa using hb)⟩
+    exact sel_best [x] R (some x) (cacheOfLex R) h1 (ih hR) hd
+
+theorem feat_inj_nodup (feats : List (Feat α π)) (hf : (feats.map Prod.fst).Nodup) (f g : Feat α π)
+    (hff : f ∈ feats) (hgf : g ∈ feats) (h : f.1 = g.1) : f = g := by
+  induction feats with
+  | nil => simp at hff
+  | cons x xs ih =>
+    rw [List.map_cons, List.nodup_cons] at hf
+    obtain ⟨hx, hxs⟩ := hf
+    rcases List.mem_cons.mp hff with e1 | hff' <;> rcases List.mem_cons.mp hgf with e2 | hgf'
+    · rw [e1, e2]
+    · exact absurd (List.mem_map.mpr ⟨g, hgf', by rw [← h, e1]⟩) hx
+    · exact absurd (List.mem_map.mpr ⟨f, hff', by rw [h, e2]⟩) hx
+    · exact ih hxs hff' hgf'
+
+/-- **Table fits select the same candidate for EVERY schedule** — any distribution of the features over the workers, any
+    order inside a worker (the two loops of table.cpp) — as soon as the feature indices are distinct. -/
+theorem mapMinReduceLex_any (feats : List (Feat α π)) (hf : (feats.map Prod.fst).Nodup)
+    (sched : List (List (Feat α π))) (hne : sched ≠ []) (hperm : sched.flatten.Perm feats) :
+    ∃ r, mapMinReduceLex (sched.map stream) = some r ∧ Best (reps feats) r := by
+  have hmap : (sched.map stream).map cacheOfLex = (sched.map reps).map cacheOfLex := by
+    simp only [List.map_map]
+    apply List.map_congr_left
+    intro w _
+    exact cacheOfLex_stream w
+  have hmem : ∀ a, a ∈ (sched.map reps).flatten ↔ a ∈ reps feats := by
+    intro a
+    rw [mem_reps]
+    constructor
+    · intro h
+      obtain ⟨l, hl, ha⟩ := List.mem_flatten.mp h
+      obtain ⟨w, hw, rfl⟩ := List.mem_map.mp hl
+      obtain ⟨f, hfw, hfa⟩ := (mem_reps w a).mp ha
+      exact ⟨f, hperm.subset (List.mem_flatten.mpr ⟨w, hw, hfw⟩), hfa⟩
+    · rintro ⟨f, hff, hfa⟩
+      obtain ⟨w, hw, hfw⟩ := List.mem_flatten.mp (hperm.symm.subset hff)
+      exact List.mem_flatten.mpr ⟨reps w, List.mem_map.mpr ⟨w, hw, rfl⟩, (mem_reps w a).mpr ⟨f, hfw, hfa⟩⟩
+  have hd : Distinct (sched.map reps).flatten := by
+    intro a ha b hb hab
+    obtain ⟨f, hff, hfa⟩ := (mem_reps feats a).mp ((hmem a).mp ha)
+    obtain ⟨g, hgf, hgb⟩ := (mem_reps feats b).mp ((hmem b).mp hb)
+    have hfg : f.1 = g.1 := by rw [← rep_feature f a hfa, ← rep_feature g b hgb, hab]
+    have : f = g := feat_inj_nodup feats hf f g hff hgf hfg
+    subst this
+    rw [hfa] at hgb
+    exact Option.some.inj hgb
+  obtain ⟨r, hr, hbest⟩ := minReduce_best cacheOfLex (sched.map reps) (by simpa using hne)
+    (fun w hw => cacheOfLex_best w (fun a ha b hb =>
+      hd a (List.mem_flatten.mpr ⟨w, hw, ha⟩) b (List.mem_flatten.mpr ⟨w, hw, hb⟩))) hd
+  refine ⟨r, ?_, best_congr _ _ hmem r hbest⟩
+  unfold mapMinReduceLex
+  rw [hmap, hr]
 
 end Min
+
 
 /-! ### calls on a shared object -/
 
